@@ -17,6 +17,8 @@ from engine.fbound import Analyzer
 from .common import *
 from .c09 import vec_kernel, compose, pix_atoms
 from .xyb import roundtrip_kernel, strip_clamp0, ULP_CBRT
+from engine import realerr
+from engine.ival import I
 
 def middle_kernel(ctx, p):
     it, val, _ = roundtrip_kernel(ctx)                                        # LinearRgb -> Xyb -> LinearRgb, atoms linearrgb.data
@@ -29,7 +31,7 @@ def middle_kernel(ctx, p):
         raise Unsupported('middle kernel does not read the three components of its pixel')
     return full, [at[0], at[1], at[2]]
 
-def local_bound(val, atoms, box):
+def local_bound(val, atoms, box, detail=None, H=None):
     """[bound_0, bound_1, bound_2] (Fractions) with |Kp(x)_k - x_k| <= bound_k for every x in the box
     (box: three (lo, hi) pairs); uses A-cbrt (cbrtf within 1 ulp, decided by C18)"""
     rng = {a.id: (Fr(lo), Fr(hi)) for a, (lo, hi) in zip(atoms, box)}
@@ -58,6 +60,7 @@ def local_bound(val, atoms, box):
     ids = sorted(apps)
     corners = list(itertools.product(*[(Fr(lo), Fr(hi)) for lo, hi in box]))
     res = []
+    parts = []
     for k in range(3):
         a = outs[k]
         W = {i: a.p.coef(i, i, i) for i in ids}
@@ -78,7 +81,22 @@ def local_bound(val, atoms, box):
         c0 = sum(W[i] * mix[i]['const'] for i in ids) + cst
         dmax = max(abs(c0 + sum(l * x for l, x in zip(lin, c))) for c in corners)
         e_cube = sum(abs(W[i]) * (mix[i]['err'] + mix[i]['hi'] * (3 * ULP_CBRT + 4 * ULP_CBRT * ULP_CBRT)) for i in ids)
-        res.append(dmax + e_cube + residue + a.err)
+        apriori = e_cube + a.err
+        run = None
+        if H is not None:
+            # computed - ideal of the same expression by interval running-error analysis (signed, local magnitudes, certified cbrtf):
+            # usually half of the a-priori first-order bound
+            try:
+                env = {x.id: I(float(lo), float(hi)) for x, (lo, hi) in zip(atoms, box)}
+                V, E, R = realerr.errprop(val.fields[k], env, H)
+                run = Fr(E.mag) * (1 + Fr(1, 10 ** 9))
+            except (Unsupported, ZeroDivisionError, OverflowError):
+                run = None
+        rnd_ = min(apriori, run) if run is not None else apriori
+        res.append(dmax + residue + rnd_)
+        parts.append(dict(defect=float(dmax), cube=float(e_cube), residue=float(residue), rounding=float(a.err), running=(float(run) if run is not None else None)))
+    if detail is not None:
+        detail.extend(parts)
     return res
 
 # ------------------------------------------------------------------------------------------------
@@ -99,7 +117,9 @@ def code_rows():
             for pl in range(3):
                 black, rng = ideal_norm(8, full, pl > 0)
                 rows.append([float(F[pl][j] * rng) for j in range(3)])
-            out.append((f"{m}/{'full' if full else 'limited'}", rows))
+            D = ideal_inverse(m)
+            et = [float(sum(abs(D[j][pl]) / ideal_norm(8, full, pl > 0)[1] for pl in range(3)) / 2) * 1.0001 for j in range(3)]
+            out.append((f"{m}/{'full' if full else 'limited'}", rows, et))
     return out
 
 def eta():
@@ -138,10 +158,13 @@ class Pipeline:
         comp = X.substitute(self.G, {self.Gx.id: self.L})
         self.comp = comp
         key = c03.canon(comp)
+        # the curve pair alone, implementation level, on [0, 1 + eta]:  |G_c(L_c(x)) - x| <= RT   (C10's quantity)
         f = lambda iv: evaluate(comp, {self.Lx.id: iv})
         (up_, lo_, arg, n), hit = c03._disk('c09-pair', f"{key}|{self.eta!r}|{c03.spec_hash()}", lambda: sup_abs_diff(f, lambda iv: iv, 0.0, 1.0 + self.eta, 1.5e-4, max_boxes=60000))
         self.delta_T = up_
-        # G: implementation error with exact input, and distance of the ideal kernel from the continuous defining formula
+        e_rt = realerr.sup_error(comp, self.Lx, H, 0.0, 1.0 + self.eta, 2.5e-4, max_boxes=4000)[0]
+        self.RT = up_ + e_rt
+        # G alone: implementation error with exact input, and distance of the ideal kernel from the continuous defining formula
         xmax = self.lin_max()
         self.E_G = realerr.sup_error(self.G, self.Gx, H, 0.0, xmax, 3e-4, max_boxes=3000)[0]
         spec_ = c03.load_spec()
@@ -149,6 +172,9 @@ class Pipeline:
         fG = lambda iv: evaluate(self.G, {self.Gx.id: iv})
         (upf, lof, argf, nf), hit = c03._disk('c09-gformula', f"{c03.canon(self.G)}|{c03.spec_hash()}|{t}", lambda: sup_abs_diff(fG, g, 0.0, 1.0, 1e-4, max_boxes=60000))
         self.delta_f = upf
+        # does the curve do anything but clip for negative samples? (odd curves like xvYCC are as steep at -0 as at +0)
+        Vn = evaluate(self.L, {self.Lx.id: I(-self.eta, -1e-6)})
+        self.neg_matters = not (Vn.lo == 0.0 and Vn.hi == 0.0)
 
     def lin_max(self):
         V = evaluate(self.L, {self.Lx.id: I(1.0, 1.0 + self.eta)})
@@ -184,21 +210,23 @@ class Pipeline:
         return I(max(-b2, Vg.lo - G1.hi), min(b2, Vg.hi - G1.lo))
 
     def delta(self, box):
+        """M(x0) - x0 = [G_c(x1c + e1) - G_c(x1c)] + [G_c(L_c(x0)) - x0]; the first bracket is within
+        omega(x1c, e1) + 2 E_G of zero, the second is the curve pair alone (RT for x0 >= 0, evaluated directly for x0 < 0)"""
         X1 = [self.EL(lo, hi) for lo, hi in box]
         b1 = [(Fr(R.lo), Fr(R.hi)) for (V, E, R) in X1]
-        e1 = [float(b) * (1 + 1e-9) for b in local_bound(self.mid, self.atoms, b1)]
+        e1 = [float(b) * (1 + 1e-9) for b in local_bound(self.mid, self.atoms, b1, H=self.H)]
         out = []
         for i, (lo, hi) in enumerate(box):
             V, E, R = X1[i]
-            e = E.mag + e1[i]
-            w = self.omega(V, e)
-            if hi <= 0.0 or lo < 0.0:
+            w = self.omega(R, e1[i])
+            if lo < 0.0:
                 neg = I(lo, min(hi, 0.0))
-                dneg = evaluate(self.comp, {self.Lx.id: neg}) - neg
-                dT = dneg if hi <= 0.0 else dneg.hull(realerr.sym(self.delta_T))
+                Vc, Ec, Rc = realerr.errprop(self.comp, {self.Lx.id: neg}, self.H)
+                dneg = (Vc - neg) + Ec
+                dT = dneg if hi <= 0.0 else dneg.hull(realerr.sym(self.RT))
             else:
-                dT = realerr.sym(self.delta_T)
-            out.append(dT + realerr.sym(self.E_G) + w)
+                dT = realerr.sym(self.RT)
+            out.append(dT + realerr.sym(2 * self.E_G) + w)
         return out
 
     def worst(self, box):
@@ -209,7 +237,10 @@ class Pipeline:
             self.last = str(ex)
             return INF, [INF, INF, INF]
         w = 0.0
-        for label, rows in self.rows:
+        for label, rows, et in self.rows:
+            # decoded in-gamut samples of THIS matrix/range lie in prod_j [-et_j, 1 + et_j]: boxes outside are not its business
+            if any(bx_hi < -et[j] or bx_lo > 1 + et[j] for j, (bx_lo, bx_hi) in enumerate(box)):
+                continue
             for row in rows:
                 acc = I(0.0, 0.0)
                 for c, d in zip(row, D):
@@ -233,13 +264,14 @@ def budget_bb(pl: Pipeline, max_boxes=3000):
         heapq.heappop(heap); n += 1
         widths = [hi - lo for lo, hi in bx]
         # split the side that is widest relative to where it sits (near zero the curves are steep: geometric refinement)
-        score = [widths[i] / (2e-3 + abs(bx[i][0] + bx[i][1]) / 2) if bx[i][1] > 0 else widths[i] * 1e-3 for i in range(3)]
+        score = [widths[i] / (2e-3 + abs(bx[i][0] + bx[i][1]) / 2) * (1.0 if (bx[i][1] > 0 or pl.neg_matters) else 1e-3) for i in range(3)]
         j = max(range(3), key=lambda i: score[i])
         if widths[j] < 1e-9:
             done = max(done, -nb); wbox = bx; continue
         lo, hi = bx[j]
         if lo < 0.0 < hi: m = 0.0
         elif lo == 0.0 and hi > 1e-7: m = hi / 16
+        elif hi == 0.0 and lo < -1e-7: m = lo / 16
         else: m = (lo + hi) / 2
         for part in ((lo, m), (m, hi)):
             nbx = list(bx); nbx[j] = part
